@@ -2,35 +2,102 @@
 
 stdin : one JSON object per line   {"seed": <codec>, "specs": [<codec SchemaSpec>...]}
 stdout: one JSON object per line   {"out": [<codec value>...]} | {"error": "..."}
+
+Options (argv):
+  --fork         every request is served by a forked child that exits afterwards: the interpreter that generates has
+                 never generated anything before (the other workers accumulate the history of all earlier requests)
+  --prehistory   before serving, the interpreter generates from a number of schemas, several of which fail below
+                 containers or hold repeat counts above the generator's limit
+  --warp-clock   every clock of the time module jumps ahead by 7 s per reading (a very slow / busy machine)
 """
 import json
+import os
 import sys
 
 
-def main():
+def _warp_clock():
+    import time
+    state = {"t": 1_700_000_000.0}
+
+    def tick():
+        state["t"] += 7.0
+        return state["t"]
+    for name in ("time", "monotonic", "perf_counter", "process_time", "thread_time"):
+        if hasattr(time, name):
+            setattr(time, name, tick)
+    for name in ("time_ns", "monotonic_ns", "perf_counter_ns", "process_time_ns"):
+        if hasattr(time, name):
+            setattr(time, name, lambda: int(tick() * 1e9))
+
+
+def _prehistory():
+    from d42 import fake, schema
+    from . import panel
+    for kind in range(4):
+        for depth in (6, 5, 2):
+            try:
+                panel.failing(kind, depth)
+            except Exception:  # noqa
+                pass
+    for p in ("x{40,}", "(?:ab){64,}", "[ab]{33,}?z*", "\\d{44}"):
+        fake(schema.str.regex(p))
+    panel.run(seed=5)
+
+
+def _serve_one(line):
     from pbt import codec, specs
     from d42 import fake
     from d42.generation import Random
-    sys.stdout.write(json.dumps({"ready": True, "hashseed": __import__("os").environ.get("PYTHONHASHSEED")}) + "\n")
+    try:
+        req = codec.dec(json.loads(line))
+        schemas = [specs.build(s) for s in req["specs"]]
+        Random().set_seed(req["seed"])
+        out = []
+        for s in schemas:
+            try:
+                out.append(codec.enc(fake(s)))
+            except Exception as e:  # noqa
+                out.append({"$raised": type(e).__name__})
+        return {"out": out}
+    except Exception as e:  # noqa
+        return {"error": repr(e)}
+
+
+def main():
+    opts = set(sys.argv[1:])
+    if "--warp-clock" in opts:
+        _warp_clock()           # before d42 is imported (from time import ... would bind the real clock)
+    from pbt import codec, specs  # noqa: F401
+    import d42  # noqa: F401
+    from d42 import fake  # noqa: F401
+    if "--prehistory" in opts:
+        _prehistory()
+    sys.stdout.write(json.dumps({"ready": True, "hashseed": os.environ.get("PYTHONHASHSEED")}) + "\n")
     sys.stdout.flush()
     for line in sys.stdin:
         line = line.strip()
         if not line:
             continue
-        try:
-            req = codec.dec(json.loads(line))
-            schemas = [specs.build(s) for s in req["specs"]]
-            Random().set_seed(req["seed"])
-            out = []
-            for s in schemas:
-                try:
-                    out.append(codec.enc(fake(s)))
-                except Exception as e:  # noqa
-                    out.append({"$raised": type(e).__name__})
-            resp = {"out": out}
-        except Exception as e:  # noqa
-            resp = {"error": repr(e)}
-        sys.stdout.write(json.dumps(resp) + "\n")
+        if "--fork" in opts:
+            r, w = os.pipe()
+            pid = os.fork()
+            if pid == 0:
+                os.close(r)
+                os.write(w, (json.dumps(_serve_one(line)) + "\n").encode())
+                os._exit(0)
+            os.close(w)
+            chunks = []
+            while True:
+                b = os.read(r, 65536)
+                if not b:
+                    break
+                chunks.append(b)
+            os.close(r)
+            os.waitpid(pid, 0)
+            text = b"".join(chunks).decode() or json.dumps({"error": "child died"}) + "\n"
+            sys.stdout.write(text)
+        else:
+            sys.stdout.write(json.dumps(_serve_one(line)) + "\n")
         sys.stdout.flush()
 
 
